@@ -145,7 +145,7 @@ def rule_a(chk, prog):
                 chk.violation("C03.a", where, construct,
                               f"water content of a compartment is increased but {detail}; {d2}: the compartment can end the day above its "
                               "own saturation / adjusted field capacity", loc=fi.loc(a))
-    chk.floor("C03.a", n_upd, 7, "increasing updates of water-content cells")
+    chk.floor("C03.a", n_upd, 5, "increasing updates of water-content cells")
 
 
 def _cap_follows(fi, flow, nid, target, cell, idx) -> Tuple[bool, str]:
@@ -647,7 +647,7 @@ def rule_d(chk, prog, rule="C03.d", only=None, floor=15):
     chk.floor("C03.e", len([i for i in chk.instances if i["rule"] == "C03.e"]), 4, "layer-number locals / sites examined")
 
 
-def rule_f(chk, prog):
+def rule_f(chk, prog, rule="C03.f"):
     """C03.f: 'ponding is zero whenever no bunds are configured' speaks of the field management in force on the day. The step selects
     it from the growing-season flag: in season the configured in-season management, otherwise the fallow one. Interprocedural constant
     propagation with the two objects as distinct abstract objects: at the row writer the management local is the in-season object in
@@ -667,19 +667,19 @@ def rule_f(chk, prog):
     for gs in (True, False):
         parts = r.locals[gs]
         if not parts:
-            chk.error(f"C03.f: no partition with growing_season={gs}")
+            chk.error(f"{rule}: no partition with growing_season={gs}")
         for l in parts:
             n += 1
             v = l[fm]
             construct = f"field management in force | growing_season={gs}"
             if isinstance(v, Obj) and v.oid == want[gs]:
-                chk.ok("C03.f", STEP_FN, construct, f"{'in-season' if gs else 'fallow'} management object")
+                chk.ok(rule, STEP_FN, construct, f"{'in-season' if gs else 'fallow'} management object")
             else:
-                chk.violation("C03.f", STEP_FN, construct,
+                chk.violation(rule, STEP_FN, construct,
                               f"on a day with growing_season={gs} the management in force is {v}, not the {'in-season' if gs else 'fallow'} field management: "
                               "bunds (mulches, curve-number adjustment) of the other period stay in force, e.g. water is held behind in-season bunds after "
                               "the crop has matured although the fallow management has none", loc=step.loc())
-    chk.floor("C03.f", n, 2, "partitions of the row writer examined")
+    chk.floor(rule, n, 2, "partitions of the row writer examined")
 
 
 def run(chk, prog, tier):
